@@ -229,6 +229,26 @@ func init() {
 				}
 			} else {
 				rep.Count("outcome:local-base")
+				// local base: the same segment stack with an unbounded number of leading ".." (seed C11-c)
+				ups, names := 0, []string{}
+				for _, part := range []string{baseStr, relStr} {
+					for _, sg := range strings.Split(part, "/") {
+						switch sg {
+						case "", ".":
+						case "..":
+							if len(names) > 0 {
+								names = names[:len(names)-1]
+							} else {
+								ups++
+							}
+						default:
+							names = append(names, sg)
+						}
+					}
+				}
+				if want := "loc " + X(canonicalRel(ups, names)); gotErr || resEnc != want {
+					rep.AddOracle(OracleFailure{Property: "C11", Lane: "resolve", What: fmt.Sprintf("local base: result %s (err=%v), the segment stack says %q", resEnc, gotErr, canonicalRel(ups, names)), Input: []string{baseStr, relStr, fmt.Sprintf("final=%v", final)}})
+				}
 			}
 			return res, !gotErr
 		}
